@@ -761,7 +761,7 @@ class Interp:
                 if cur is None:
                     break
                 body_st = cur.copy()
-                self.assign(s.target, _strip_sx(item), frame, body_st, s)
+                self.assign(s.target, item, frame, body_st, s)
                 end = self.exec_block(s.body, frame, body_st)
                 ctx = frame.loops[-1]
                 for c in ctx['continues']:
@@ -1307,7 +1307,7 @@ class Interp:
         out = []
         for item in items:
             cst = st.copy()
-            self.assign(g.target, _strip_sx(item), frame, cst)
+            self.assign(g.target, item, frame, cst)
             out.append(self.eval(n.elt, frame, cst))
             st.heap = cst.heap
         return out
@@ -1346,6 +1346,21 @@ class Interp:
                     kv, vv = self.eval(n.key, frame, cst), self.eval(n.value, frame, cst)
                     st.heap = cst.heap
                     if not (has_const(kv) and isinstance(cval(kv), str)):
+                        ok = False
+                        break
+                    kw[cval(kv)] = vv
+                if ok:
+                    return AV(ty='dict', kw=kw, fresh=True, deps=frozenset().union(*[v.deps or frozenset() for v in kw.values()]))
+            items = known_items(src)
+            if items is not None:
+                # a short sequence of known items: one entry per item (constant string keys)
+                kw, ok = {}, True
+                for item in items:
+                    cst = st.copy()
+                    self.assign(g.target, item, frame, cst)
+                    kv, vv = self.eval(n.key, frame, cst), self.eval(n.value, frame, cst)
+                    st.heap = cst.heap
+                    if not (has_const(kv) and isinstance(cval(kv), str)) or cval(kv) in kw:
                         ok = False
                         break
                     kw[cval(kv)] = vv
